@@ -45,13 +45,33 @@ class Use:
         self.index = index
 
 
+class IRUses:
+    """the use-list of a value as xdsl exposes it (iterable, truthy when non-empty, get_length); contracts fill it
+    with `append` when they build a view"""
+
+    def __init__(self):
+        self._uses = []
+
+    def append(self, use):
+        self._uses.append(use)
+
+    def get_length(self):
+        return len(self._uses)
+
+    def __len__(self):
+        return len(self._uses)
+
+    def __iter__(self):
+        return iter(self._uses)
+
+
 class SSAValue:
     def __init__(self, den=None, type=None, owner=None, name_hint=None):
         self.den = den
         self.type = type
         self.owner = owner
         self.name_hint = name_hint
-        self.uses = []
+        self.uses = IRUses()
         self.replaced = None
 
     @staticmethod
@@ -186,11 +206,10 @@ class Operation:
         return self.parent.ops[i + 1] if i + 1 < len(self.parent.ops) else None
 
     def walk(self, reverse=False, region_first=False):
+        # as xdsl: `reverse` reverses the order of regions / blocks / ops, `region_first` the position of self
         inner = []
-        for r in self.regions:
-            for b in r.blocks:
-                for o in b.ops:
-                    inner.extend(o.walk(reverse, region_first))
+        for r in (reversed(self.regions) if reverse else self.regions):
+            inner.extend(r.walk(reverse, region_first))
         return inner + [self] if region_first else [self] + inner
 
     def has_trait(self, trait):
@@ -292,7 +311,7 @@ class Block:
 
     def walk(self, reverse=False, region_first=False):
         out = []
-        for o in self.ops:
+        for o in (reversed(self.ops) if reverse else self.ops):
             out.extend(o.walk(reverse, region_first))
         return out
 
@@ -330,7 +349,7 @@ class Region:
 
     def walk(self, reverse=False, region_first=False):
         out = []
-        for b in self.blocks:
+        for b in (reversed(self.blocks) if reverse else self.blocks):
             out.extend(b.walk(reverse, region_first))
         return out
 
